@@ -64,11 +64,22 @@ fn ncls(n: usize, cap: usize) -> String {
 
 /// exact power-of-two rescaling of knot data: (x, y) -> (x*2^a, y*2^b).  `inside`: exponents that keep ordinary data
 /// within the monitors' windows (spline 2^+-150, linear 2^+-300); otherwise far outside them (correspondence only).
-fn rescale_knots(r: &mut Rng, ks: &mut Vec<(f64, f64)>, lim: i64) -> &'static str {
+fn rescale_knots(r: &mut Rng, ks: &mut Vec<(f64, f64)>, down: i64, lim: i64) -> &'static str {
     let (a, b, name) = match r.below(8) {
-        0 | 1 => (r.range(-lim, lim) as i32, r.range(-lim, lim) as i32, "scaled"),
+        0 => (r.range(-lim, lim) as i32, r.range(-lim, lim) as i32, "scaled"),
+        1 => {
+            // x and y by the SAME factor (slopes unchanged), far down: differences of the size 2^-down
+            let e = r.range(-down, lim) as i32;
+            (e, e, "scaled-together")
+        }
         2 => (0, r.range(-lim, lim) as i32, "y-scaled"),
         3 => (r.range(-lim, lim) as i32, 0, "x-scaled"),
+        5 => {
+            // between the monitors' windows and the far extremes: judged by the bit-exact correspondence alone
+            let e = r.range(lim, (lim * 2).min(850)) as i32;
+            let e = if r.chance(1, 2) { e } else { -e };
+            (e, if r.chance(1, 2) { e } else { 0 }, "beyond")
+        }
         4 => {
             let e = r.range((lim * 2).min(850), 900) as i32;
             (if r.chance(1, 2) { e } else { -e }, if r.chance(1, 2) { e / 2 } else { -e / 2 }, "extreme")
@@ -139,7 +150,16 @@ fn piece(r: &mut Rng, tag: &str) -> Vec<f64> {
 
 /// positive argument for log forms
 fn pos_arg(r: &mut Rng) -> (f64, &'static str) {
-    match r.below(10) {
+    match r.below(11) {
+        10 => {
+            // the ends of the range of positive doubles: subnormal and tiny v (x = -ln v up to 744.4: exp(x) is about to
+            // overflow), huge v
+            match r.below(3) {
+                0 => (f64::from_bits(1 + r.below((1u64 << 52) - 1)), "subnormal"),
+                1 => ((2.0f64).powi(-(r.range(990, 1022) as i32)) * (1.0 + r.unit()), "tiny"),
+                _ => ((2.0f64).powi(r.range(990, 1023) as i32) * (1.0 + r.unit() * 0.99), "huge"),
+            }
+        }
         8 | 9 => {
             // |ln v| log-uniform from 1e-9 to 3: every decade of the series branch of the exponential tail
             let e = -9.0 + r.unit() * 9.5;
@@ -594,7 +614,7 @@ pub fn gen_case(campaign: &str, r: &mut Rng) -> Case {
                 }
                 ks.push((x, moderate(r).0));
             }
-            let sc = rescale_knots(r, &mut ks, 450);
+            let sc = rescale_knots(r, &mut ks, 900, 450);
             let mut c = Case::new("linear", "p1").set("knots", Val::Knots(ks)).cls(&format!("style={style}:n={}:{sc}", ncls(n, 4)));
             c.nontrivial = n >= 3;
             c
@@ -635,7 +655,7 @@ pub fn gen_case(campaign: &str, r: &mut Rng) -> Case {
                 }
                 ks.push((x, yy));
             }
-            let sc = rescale_knots(r, &mut ks, 250);
+            let sc = rescale_knots(r, &mut ks, 330, 250);
             let mut c = Case::new("spline", "p3").set("knots", Val::Knots(ks)).cls(&format!("style={style}:n={}:{sc}", ncls(n, 5)));
             c.nontrivial = n >= 4;
             c
